@@ -318,6 +318,14 @@ class Frames(Hooks):
         fb, ub = self.frame(A, env, eb)
         # units
         u = None
+        if op == '*':
+            # X*(1<<hs) is the shift X<<hs written as a product
+            for x_, y_ in ((ea, eb), (eb, ea)):
+                yn = self.F.ex[self.F.strip_casts(y_)]
+                if yn['k'] == 'bin' and yn['op'] == '<<' and self.is_hs(A, env, yn['c'][1]):
+                    one_ = self.F.ex[self.F.strip_casts(yn['c'][0])]
+                    if one_['k'] == 'int' and one_.get('v') == 1:
+                        return self.combine(A, env, e, '<<', x_, yn['c'][1])
         if op in ('<<', '>>') and self.is_hs(A, env, eb):
             if ua is not None:
                 if op == '<<':
